@@ -289,7 +289,7 @@ def run(ctx):
               'per-column serializers abstract in theorems (C01/C02); Int32/UTF8/Bytes modelled concretely only to run cases')
     ctx.assume('no explicit routing_key passed to BoundStatement(); each BoundStatement bound once before routing_key is read')
     rng = ctx.rng
-    ncases = 1500 if ctx.tier == 'quick' else 30000
+    ncases = 1500 if ctx.tier == 'quick' else 12000
     cases = []
     corpus = os.path.join(core.VERIF, 'corpus', 'C30')
     if os.path.isdir(corpus):
